@@ -181,10 +181,10 @@ def run(tier, seed, ev):
                    "k = index of the failing allocation, enumerated over all allocations of the fault-free run; distinct = (archive, history length, k)")
     for v in viols:
         v["signature"] = classify(v)
-        for ln in open(os.path.join(v["replay"], "jobs.txt")):
-            p = ln.split()
-            for f in (p[1], p[2]):
-                if os.path.exists(f):
+        jf = os.path.join(v["replay"], "jobs.txt")
+        for ln in (open(jf) if os.path.exists(jf) else []):
+            for f in ln.split()[1:3]:
+                if os.path.isfile(f):
                     shutil.copy(f, v["replay"])
     shutil.rmtree(sc, ignore_errors=True)
     return viols
